@@ -102,3 +102,536 @@ Proof.
   - destruct C as (C1 & C2 & C3). destruct (IH _ C3) as (A & B & D).
     repeat split; auto. { apply Hn; congruence. } intros y [<-|I]; auto.
 Qed.
+
+(* ================= Part C: the partition ================= *)
+
+Lemma split_at_Some x c p q : split_at x c = Some (p, q) -> c = p ++ x :: q /\ ~ In x p.
+Proof.
+  revert p q; induction c as [|y t IH]; intros p q H; simpl in H; [discriminate|].
+  destruct (Nat.eqb_spec y x) as [->|N].
+  - injection H as <- <-. simpl. auto.
+  - destruct (split_at x t) as [[p' q']|]; [|discriminate]. injection H as <- <-.
+    destruct (IH _ _ eq_refl) as [-> Np]. simpl. split; auto. intuition.
+Qed.
+
+Lemma split_at_None x c : split_at x c = None -> ~ In x c.
+Proof.
+  induction c as [|y t IH]; simpl; [tauto|].
+  destruct (Nat.eqb_spec y x) as [->|N]; [discriminate|].
+  destruct (split_at x t) as [[p q]|]; [discriminate|]. intros _ [E|I]; auto. apply IH; auto.
+Qed.
+
+Lemma split_at_split x p q : ~ In x p -> split_at x (p ++ x :: q) = Some (p, q).
+Proof.
+  intro N. induction p as [|y t IH]; simpl.
+  - rewrite Nat.eqb_refl. reflexivity.
+  - destruct (Nat.eqb_spec y x) as [->|]; [simpl in N; tauto|]. rewrite IH; auto. simpl in N; tauto.
+Qed.
+
+Lemma rot_to_Some x c c' : rot_to x c = Some c' -> exists p q, c = p ++ x :: q /\ c' = x :: q ++ p /\ ~ In x p.
+Proof.
+  unfold rot_to. destruct (split_at x c) as [[p q]|] eqn:E; [|discriminate].
+  intro H; injection H as <-. destruct (split_at_Some _ _ _ _ E). eauto.
+Qed.
+
+Lemma rot_to_None x c : rot_to x c = None -> ~ In x c.
+Proof. unfold rot_to. destruct (split_at x c) as [[p q]|] eqn:E; [discriminate|]. intros _. apply split_at_None; auto. Qed.
+
+Lemma extract_Some x cs c' rest :
+  extract x cs = Some (c', rest) ->
+  exists pre c post p q, cs = pre ++ c :: post /\ rest = pre ++ post /\ c = p ++ x :: q /\ c' = x :: q ++ p.
+Proof.
+  revert c' rest; induction cs as [|c t IH]; intros c' rest H; simpl in H; [discriminate|].
+  destruct (rot_to x c) as [c1|] eqn:E.
+  - injection H as <- <-. destruct (rot_to_Some _ _ _ E) as (p & q & -> & -> & _).
+    exists [], (p ++ x :: q), t, p, q. auto.
+  - destruct (extract x t) as [[c1 t1]|]; [|discriminate]. injection H as <- <-.
+    destruct (IH _ _ eq_refl) as (pre & c0 & post & p & q & -> & -> & -> & ->).
+    exists (c :: pre), (p ++ x :: q), post, p, q. auto.
+Qed.
+
+Lemma extract_None x cs : extract x cs = None -> ~ In x (concat cs).
+Proof.
+  induction cs as [|c t IH]; simpl; [tauto|].
+  destruct (rot_to x c) as [c1|] eqn:E; [discriminate|].
+  destruct (extract x t) as [[c1 t1]|]; [discriminate|].
+  intros _ I. apply in_app_iff in I as [I|I]; [eapply rot_to_None; eauto|apply IH; auto].
+Qed.
+
+Lemma concat_mid {A} (pre : list (list A)) c post : concat (pre ++ c :: post) = concat pre ++ c ++ concat post.
+Proof. rewrite concat_app. reflexivity. Qed.
+
+Lemma perm_extract {A} (pre : list (list A)) (p q : list A) x post :
+  Permutation (concat (pre ++ (p ++ x :: q) :: post)) ((x :: q ++ p) ++ concat (pre ++ post)).
+Proof.
+  rewrite concat_mid, concat_app.
+  apply Permutation_trans with ((p ++ x :: q) ++ concat pre ++ concat post).
+  - rewrite (app_assoc (concat pre)), (app_assoc (p ++ x :: q) (concat pre)).
+    apply Permutation_app_tail. apply Permutation_app_comm.
+  - apply Permutation_app_tail. change (x :: q ++ p) with ((x :: q) ++ p). apply Permutation_app_comm.
+Qed.
+
+(* ================= Part D: re-establishing the invariant ================= *)
+
+Lemma in_concat_iff {A} (x : A) (ls : list (list A)) : In x (concat ls) <-> exists l, In l ls /\ In x l.
+Proof. rewrite in_concat. firstorder. Qed.
+
+(* Replace the cycles whose nodes are [changed] by the cycles [news] (nodes: changed plus
+   the newly initialised ones); every other cycle and every other node is untouched. *)
+Lemma RRep_replace h a h' vs' changed rest newly news :
+  RRep h a ->
+  Permutation (concat (ra_cycles a)) (changed ++ concat rest) ->
+  (forall d, In d rest -> In d (ra_cycles a)) ->
+  length h <= length h' ->
+  (length h' = length vs' /\ forall j, j < length h' -> nth_error vs' j = Some (rvl h' j)) ->
+  NoDup newly -> (forall j, In j newly -> ~ In j (concat (ra_cycles a)) /\ j < length h') ->
+  Permutation (concat news) (newly ++ changed) ->
+  (forall c, In c news -> exists x t, c = x :: t /\ chain (rnx h') (rpv h') x t x) ->
+  (forall j, ~ In j (newly ++ changed) -> rnx h' j = rnx h j /\ rpv h' j = rpv h j) ->
+  RRep h' (RA (news ++ rest) vs').
+Proof.
+  intros R P Hrest Hlen Hv NDn Hnew Pn Hc Hfr.
+  pose proof (RR_nodup _ _ R) as ND.
+  assert (ND2 : NoDup (changed ++ concat rest)) by (eapply Permutation_NoDup; eauto).
+  apply NoDup_app_iff in ND2 as (NDc & NDr & Dcr).
+  assert (Hrest_fr : forall j, In j (concat rest) -> rnx h' j = rnx h j /\ rpv h' j = rpv h j).
+  { intros j Ij. apply Hfr. intro I. apply in_app_iff in I as [I|I].
+    - destruct (Hnew j I) as [N _]. apply N. eapply Permutation_in; [apply Permutation_sym; exact P|].
+      apply in_or_app; auto.
+    - apply (Dcr j I Ij). }
+  constructor; cbn [ra_cycles ra_vals].
+  - exact Hv.
+  - intros c Ic. apply in_app_iff in Ic as [Ic|Ic]; [auto|].
+    destruct (RR_cyc _ _ R c (Hrest c Ic)) as (x & t & -> & C). exists x, t. split; auto.
+    assert (In_c : forall y, In y (x :: t) -> In y (concat rest)).
+    { intros y Iy. apply in_concat_iff. eauto. }
+    eapply chain_frame; [| |exact C].
+    + intros y Hy. apply Hrest_fr, In_c. destruct Hy as [->|]; simpl; auto.
+    + intros y Hy. apply Hrest_fr, In_c. destruct Hy as [Hy| ->]; simpl; auto.
+  - rewrite concat_app. eapply Permutation_NoDup.
+    + apply Permutation_sym. apply Permutation_app_tail. exact Pn.
+    + rewrite <- app_assoc. apply NoDup_app_iff. split; auto. split.
+      * apply NoDup_app_iff. auto.
+      * intros j Ij I. destruct (Hnew j Ij) as [N _]. apply N.
+        eapply Permutation_in; [apply Permutation_sym; exact P|]. exact I.
+  - intros j Ij. rewrite concat_app in Ij. apply in_app_iff in Ij as [Ij|Ij].
+    + apply (Permutation_in _ Pn) in Ij. apply in_app_iff in Ij as [Ij|Ij]; [apply Hnew; auto|].
+      apply Nat.lt_le_trans with (length h); auto. apply (RR_alloc _ _ R).
+      eapply Permutation_in; [apply Permutation_sym; exact P|]. apply in_or_app; auto.
+    + apply Nat.lt_le_trans with (length h); auto. apply (RR_alloc _ _ R).
+      eapply Permutation_in; [apply Permutation_sym; exact P|]. apply in_or_app; auto.
+  - intros j Nj. rewrite concat_app, in_app_iff in Nj.
+    assert (N1 : ~ In j (newly ++ changed)).
+    { intro I. apply Nj. left. eapply Permutation_in; [apply Permutation_sym; exact Pn|]. exact I. }
+    destruct (Hfr j N1) as [-> ->]. apply (RR_zero _ _ R).
+    intro I. apply (Permutation_in _ P) in I. apply in_app_iff in I as [I|I]; [|tauto].
+    apply N1. apply in_or_app; auto.
+Qed.
+
+Lemma RRep_vals_same h a h' :
+  RRep h a -> length h' = length h -> (forall j, rvl h' j = rvl h j) ->
+  length h' = length (ra_vals a) /\ forall j, j < length h' -> nth_error (ra_vals a) j = Some (rvl h' j).
+Proof.
+  intros R L V. destruct (RR_vals _ _ R) as [V1 V2]. split; [lia|].
+  intros j Hj. rewrite V. apply V2. lia.
+Qed.
+
+(* a node of the partition: its cycle written from it, and its links *)
+Lemma RRep_member h a x :
+  RRep h a -> In x (concat (ra_cycles a)) ->
+  exists pre post p q,
+    ra_cycles a = pre ++ (p ++ x :: q) :: post /\
+    extract x (ra_cycles a) = Some (x :: q ++ p, pre ++ post) /\
+    chain (rnx h) (rpv h) x (q ++ p) x /\ NoDup (x :: q ++ p).
+Proof.
+  intros R I.
+  destruct (extract x (ra_cycles a)) as [[c rest]|] eqn:E; [|exfalso; eapply extract_None; eauto].
+  destruct (extract_Some _ _ _ _ E) as (pre & c0 & post & p & q & Ecs & -> & -> & ->).
+  exists pre, post, p, q. split; auto. split; auto.
+  assert (Ic : In (p ++ x :: q) (ra_cycles a)) by (rewrite Ecs; apply in_or_app; simpl; auto).
+  destruct (RR_cyc _ _ R _ Ic) as (x0 & t0 & E0 & C).
+  pose proof (RR_nodup _ _ R) as ND. rewrite Ecs, concat_mid in ND.
+  apply NoDup_app_iff in ND as (_ & ND & _). apply NoDup_app_iff in ND as (ND & _).
+  split.
+  - destruct p as [|y p']; simpl in E0.
+    + injection E0 as <- <-. rewrite app_nil_r. exact C.
+    + injection E0 as <- <-. apply chain_app in C as [C1 C2]. apply chain_app. auto.
+  - eapply Permutation_NoDup; [|exact ND].
+    change (x :: q ++ p) with ((x :: q) ++ p). apply Permutation_app_comm.
+Qed.
+
+Lemma RRep_init_iff h a x : RRep h a -> (In x (concat (ra_cycles a)) <-> rnx h x <> None).
+Proof.
+  intro R. split.
+  - intro I. destruct (RRep_member _ _ _ R I) as (pre & post & p & q & _ & _ & C & _).
+    rewrite (chain_first _ _ _ _ _ C). discriminate.
+  - intro N. destruct (in_dec Nat.eq_dec x (concat (ra_cycles a))); auto.
+    exfalso. apply N. apply (RR_zero _ _ R). auto.
+Qed.
+
+Lemma ext_member h a x pre post p q :
+  RRep h a -> extract x (ra_cycles a) = Some (x :: q ++ p, pre ++ post) ->
+  ext (ra_cycles a) x = (x :: q ++ p, pre ++ post).
+Proof. intros _ E. unfold ext. rewrite E. reflexivity. Qed.
+
+(* touching an initialised node: nothing is written, the partition is only rewritten *)
+Lemma touch_init h a x :
+  RRep h a -> In x (concat (ra_cycles a)) ->
+  ring_Next (Some x) h = Ok (Some (a_succ (ra_cycles a) x), h) /\
+  ring_Prev (Some x) h = Ok (Some (a_pred (ra_cycles a) x), h) /\
+  RRep h (RA (a_touch (ra_cycles a) x) (ra_vals a)).
+Proof.
+  intros R I. destruct (RRep_member _ _ _ R I) as (pre & post & p & q & Ecs & Ex & C & ND).
+  assert (Hx : x < length h) by (apply (RR_alloc _ _ R); auto).
+  destruct (rhget_eq h x Hx) as (c & Eg & En & Ep & _).
+  unfold ring_Next, ring_Prev, a_succ, a_pred, a_touch, ext. rewrite Eg, Ex. cbn [bind fst c_next c_prev tl].
+  rewrite En, Ep, (chain_first _ _ _ _ _ C), (chain_last _ _ _ _ _ C). cbn [ptr_eqb option_eqb].
+  split; [reflexivity|]. split; [reflexivity|].
+  apply (RRep_replace h a h (ra_vals a) (p ++ x :: q) (pre ++ post) [] [x :: q ++ p]); auto.
+  - rewrite Ecs, concat_mid, concat_app.
+    rewrite (app_assoc (concat pre)), (app_assoc (p ++ x :: q) (concat pre)).
+    apply Permutation_app_tail. apply Permutation_app_comm.
+  - intros d Id. rewrite Ecs. apply in_app_iff in Id as [Id|Id]; apply in_or_app; simpl; auto.
+  - apply (RR_vals _ _ R).
+  - constructor.
+  - intros j [].
+  - simpl. rewrite app_nil_r. change (x :: q ++ p) with ((x :: q) ++ p). apply Permutation_app_comm.
+  - intros c0 [<-|[]]. eauto.
+Qed.
+
+(* touching a zero Ring: r.next = r; r.prev = r *)
+Lemma touch_zero h a x :
+  RRep h a -> x < length h -> ~ In x (concat (ra_cycles a)) ->
+  let h' := map_nth (set_rprev (Some x)) x (map_nth (set_rnext (Some x)) x h) in
+  ring_Next (Some x) h = Ok (Some (a_succ (ra_cycles a) x), h') /\
+  ring_Prev (Some x) h = Ok (Some (a_pred (ra_cycles a) x), h') /\
+  RRep h' (RA (a_touch (ra_cycles a) x) (ra_vals a)).
+Proof.
+  intros R Hx N h'.
+  destruct (rhget_eq h x Hx) as (c & Eg & En & Ep & _).
+  destruct (RR_zero _ _ R x N) as [Zn Zp].
+  assert (Ex : extract x (ra_cycles a) = None).
+  { destruct (extract x (ra_cycles a)) as [[c0 rest]|] eqn:E; auto. exfalso. apply N.
+    destruct (extract_Some _ _ _ _ E) as (pre & c1 & post & p & q & -> & _ & -> & _).
+    rewrite concat_mid. apply in_or_app. right. apply in_or_app. left. apply in_or_app. simpl; auto. }
+  unfold ring_Next, ring_Prev, ring_init, a_succ, a_pred, a_touch, ext. rewrite Eg, Ex. cbn [bind fst c_next c_prev tl hd last].
+  rewrite En, Zn. cbn [ptr_eqb option_eqb].
+  rewrite rhupd_eq by auto. cbn [bind]. rewrite rhupd_eq by rsize_tac. cbn [bind]. fold h'.
+  split; [reflexivity|]. split; [reflexivity|].
+  apply (RRep_replace h a h' (ra_vals a) [] (ra_cycles a) [x] [[x]]); auto.
+  - unfold h'. autorewrite with rheap. lia.
+  - apply (RRep_vals_same _ _ _ R); unfold h'; [now autorewrite with rheap|].
+    intro j. now autorewrite with rheap.
+  - constructor; auto. constructor.
+  - intros j [<-|[]]. split; auto. unfold h'. now autorewrite with rheap.
+  - intros c0 [<-|[]]. exists x, []. split; auto. unfold h'. cbn [chain]. autorewrite with rheap.
+    rewrite Nat.eqb_refl. auto.
+  - intros j Nj. simpl in Nj. assert (j <> x) by (intros ->; tauto). unfold h'. autorewrite with rheap.
+    apply Nat.eqb_neq in H. rewrite H. auto.
+Qed.
+
+Lemma in_a_touch cs x j : In j (concat (a_touch cs x)) <-> j = x \/ In j (concat cs).
+Proof.
+  unfold a_touch, ext. destruct (extract x cs) as [[c rest]|] eqn:E.
+  - destruct (extract_Some _ _ _ _ E) as (pre & c1 & post & p & q & -> & -> & -> & ->).
+    cbn [concat]. rewrite concat_mid, concat_app, !in_app_iff. simpl. rewrite !in_app_iff. simpl. intuition congruence.
+  - simpl. intuition congruence.
+Qed.
+
+Lemma touch_sim h a x :
+  RRep h a -> x < length h ->
+  exists h', ring_Next (Some x) h = Ok (Some (a_succ (ra_cycles a) x), h') /\
+             ring_Prev (Some x) h = Ok (Some (a_pred (ra_cycles a) x), h') /\
+             RRep h' (RA (a_touch (ra_cycles a) x) (ra_vals a)) /\ length h' = length h.
+Proof.
+  intros R Hx. destruct (in_dec Nat.eq_dec x (concat (ra_cycles a))) as [I|N].
+  - exists h. destruct (touch_init _ _ _ R I) as (A & B & C). auto.
+  - eexists. destruct (touch_zero _ _ _ R Hx N) as (A & B & C).
+    split; [exact A|]. split; [exact B|]. split; [exact C|]. now autorewrite with rheap.
+Qed.
+
+(* ================= Part E: the relinking of Link, on functions ================= *)
+Section LinkPure.
+Variables (nx pv : nat -> ptr) (r s n p : nat).
+(* r.next = s; s.prev = r; n.prev = p; p.next = n *)
+Let nx' := upd (upd nx r (Some s)) p (Some n).
+Let pv' := upd (upd pv s (Some r)) n (Some p).
+
+Lemma link_self A :
+  chain nx pv r A r -> NoDup (r :: A) -> n = hd r A -> p = last A r -> s = r ->
+  chain nx' pv' r [] r /\ (A <> [] -> chain nx' pv' n (tl A) n).
+Proof.
+  intros C D En Ep Es. subst s. apply NoDup_cons_iff in D as [Nr D].
+  destruct A as [|n0 A'].
+  - simpl in En, Ep. subst n p. split; [|congruence]. unfold nx', pv'. split; upd_tac.
+  - simpl in En. subst n0. rewrite last_cons in Ep. destruct C as (C1 & C2 & C3).
+    assert (Npr : p <> r).
+    { rewrite Ep. intros E. apply Nr. rewrite <- E. destruct (last_in_or n A') as [[-> _]|I]; simpl; auto. }
+    assert (Nnr : n <> r) by (intros ->; apply Nr; simpl; auto).
+    split.
+    + unfold nx', pv'. split; upd_tac.
+    + intros _. cbn [tl]. apply NoDup_cons_iff in D as [Nn D].
+      apply (chain_retarget nx pv nx' pv' n A' r n C3).
+      * constructor; auto.
+      * intros x Hx Nx. rewrite <- Ep in Nx. unfold nx'. rewrite upd_other by auto. apply upd_other.
+        intros ->. apply Nr. simpl. destruct Hx as [->|]; auto.
+      * intros x Hx. unfold pv'. rewrite upd_other by (intros ->; auto). apply upd_other.
+        intros ->. apply Nr. simpl; auto.
+      * rewrite <- Ep. unfold nx'. apply upd_same.
+      * rewrite <- Ep. unfold pv'. apply upd_same.
+Qed.
+
+Lemma link_same A1 B :
+  chain nx pv r (A1 ++ s :: B) r -> NoDup (r :: A1 ++ s :: B) -> n = hd s A1 -> p = last A1 r ->
+  chain nx' pv' r (s :: B) r /\ (A1 <> [] -> chain nx' pv' n (tl A1) n).
+Proof.
+  intros C D En Ep. apply NoDup_cons_iff in D as [Nr D].
+  rewrite in_app_iff in Nr. simpl in Nr.
+  apply NoDup_app_iff in D as (D1 & D2 & D3). apply NoDup_cons_iff in D2 as [NsB DB].
+  assert (NsA : ~ In s A1) by (intro X; apply (D3 _ X); simpl; auto).
+  assert (Nsr : s <> r) by (intros ->; tauto).
+  apply chain_app in C as [C1 C2].
+  assert (HB : chain nx' pv' s B r).
+  { eapply chain_frame; [| |exact C2].
+    - intros x Hx. unfold nx'.
+      assert (x <> p).
+      { rewrite Ep. intros ->. destruct (last_in_or r A1) as [[E _]|I].
+        - rewrite E in Hx. destruct Hx as [Hx|Hx]; [congruence|tauto].
+        - destruct Hx as [Hx|Hx]; [rewrite Hx in I; tauto|]. apply (D3 _ I). simpl; auto. }
+      rewrite upd_other by auto. apply upd_other. intros ->. destruct Hx; [congruence|tauto].
+    - intros x Hx. unfold pv'.
+      assert (x <> n).
+      { rewrite En. intros ->. destruct (hd_in_or s A1) as [[E _]|I].
+        - rewrite E in Hx. destruct Hx as [Hx|Hx]; [tauto|congruence].
+        - destruct Hx as [Hx|Hx]; [apply (D3 _ I); simpl; auto|]. rewrite Hx in I. tauto. }
+      rewrite upd_other by auto. apply upd_other. intros ->. destruct Hx; [tauto|congruence]. }
+  destruct A1 as [|n0 A1'].
+  - simpl in En, Ep. subst n p. split; [|congruence].
+    cbn [chain]. split; [unfold nx'; apply upd_same|]. split; [unfold pv'; apply upd_same|]. exact HB.
+  - simpl in En. subst n0. rewrite last_cons in Ep. destruct C1 as (C1 & C1' & C1'').
+    apply NoDup_cons_iff in D1 as [NnA D1].
+    assert (Nnr : n <> r) by (intros ->; simpl in Nr; tauto).
+    assert (Nns : n <> s) by (intros ->; simpl in NsA; tauto).
+    assert (Npr : p <> r).
+    { rewrite Ep. intros E. destruct (last_in_or n A1') as [[E1 _]|I]; [congruence|]. rewrite E in I. simpl in Nr; tauto. }
+    assert (Nps : p <> s).
+    { rewrite Ep. intros E. destruct (last_in_or n A1') as [[E1 _]|I]; [congruence|]. rewrite E in I. simpl in NsA; tauto. }
+    split.
+    + cbn [chain]. split; [unfold nx'; rewrite upd_other by auto; apply upd_same|].
+      split; [unfold pv'; rewrite upd_other by auto; apply upd_same|]. exact HB.
+    + intros _. cbn [tl].
+      apply (chain_retarget nx pv nx' pv' n A1' s n C1'').
+      * constructor; auto.
+      * intros x Hx Nx. rewrite <- Ep in Nx. unfold nx'. rewrite upd_other by auto. apply upd_other.
+        intros ->. simpl in Nr. destruct Hx as [->|]; tauto.
+      * intros x Hx. unfold pv'. rewrite upd_other by (intros ->; auto). apply upd_other.
+        intros ->. simpl in NsA. tauto.
+      * rewrite <- Ep. unfold nx'. apply upd_same.
+      * rewrite <- Ep. unfold pv'. apply upd_same.
+Qed.
+
+Lemma link_diff A B :
+  chain nx pv r A r -> chain nx pv s B s -> NoDup ((r :: A) ++ (s :: B)) -> n = hd r A -> p = last B s ->
+  chain nx' pv' r (s :: B ++ A) r.
+Proof.
+  intros CA CB D En Ep.
+  apply NoDup_app_iff in D as (DA & DB & Dab).
+  apply NoDup_cons_iff in DA as [NrA DA]. apply NoDup_cons_iff in DB as [NsB DB].
+  assert (Nsr : s <> r) by (intros ->; apply (Dab r); simpl; auto).
+  assert (Hp : p = s \/ In p B) by (rewrite Ep; destruct (last_in_or s B) as [[-> _]|]; auto).
+  assert (Hn : n = r \/ In n A) by (rewrite En; destruct (hd_in_or r A) as [[-> _]|]; auto).
+  assert (Npr : p <> r) by (intros ->; apply (Dab r); simpl; auto; destruct Hp; auto).
+  assert (Nns : n <> s) by (intros ->; apply (Dab s); simpl; auto; destruct Hn; auto).
+  assert (NpA : ~ In p A) by (intro X; apply (Dab p); simpl; auto; destruct Hp; auto).
+  assert (NnB : ~ In n B) by (intro X; apply (Dab n); simpl; auto; destruct Hn; auto).
+  cbn [chain]. split; [unfold nx'; rewrite upd_other by auto; apply upd_same|].
+  split; [unfold pv'; rewrite upd_other by auto; apply upd_same|].
+  assert (HB : chain nx' pv' s B n).
+  { apply (chain_retarget nx pv nx' pv' s B s n CB).
+    - constructor; auto.
+    - intros x Hx Nx. rewrite <- Ep in Nx. unfold nx'. rewrite upd_other by auto. apply upd_other.
+      intros ->. apply (Dab r); simpl; auto. destruct Hx; auto.
+    - intros x Hx. unfold pv'. rewrite upd_other by (intros ->; auto). apply upd_other. intros ->. auto.
+    - rewrite <- Ep. unfold nx'. apply upd_same.
+    - rewrite <- Ep. unfold pv'. apply upd_same. }
+  destruct A as [|n0 A'].
+  - simpl in En. subst n. rewrite app_nil_r. exact HB.
+  - simpl in En. subst n0. destruct CA as (CA1 & CA2 & CA3).
+    apply chain_app. split; [exact HB|].
+    apply NoDup_cons_iff in DA as [NnA' DA'].
+    eapply chain_frame; [| |exact CA3].
+    + intros x Hx. unfold nx'.
+      assert (x <> p) by (intros ->; apply NpA; simpl; destruct Hx as [->|]; auto).
+      rewrite upd_other by auto. apply upd_other. intros ->. apply NrA. simpl. destruct Hx as [->|]; auto.
+    + intros x Hx. unfold pv'.
+      assert (x <> n).
+      { intros ->. destruct Hx as [Hx|Hx]; [tauto|]. apply NrA. rewrite <- Hx. simpl; auto. }
+      rewrite upd_other by auto. apply upd_other. intros ->.
+      destruct Hx as [Hx|Hx]; [|congruence]. apply (Dab s); simpl; auto.
+Qed.
+End LinkPure.
+
+Lemma RRep_ptr_lt h a j k : RRep h a -> (rnx h j = Some k \/ rpv h j = Some k) -> k < length h.
+Proof.
+  intros R H.
+  assert (I : In j (concat (ra_cycles a))).
+  { destruct (in_dec Nat.eq_dec j (concat (ra_cycles a))); auto.
+    destruct (RR_zero _ _ R j n) as [A B]. destruct H; congruence. }
+  destruct (RRep_member _ _ _ R I) as (pre & post & p & q & Ecs & _ & C & _).
+  assert (Sub : forall y, y = j \/ In y (q ++ p) -> y < length h).
+  { intros y Hy. apply (RR_alloc _ _ R). rewrite Ecs, concat_mid. apply in_or_app. right. apply in_or_app. left.
+    destruct Hy as [->|Hy]; [apply in_or_app; simpl; auto|].
+    apply in_app_iff in Hy as [Hy|Hy]; apply in_or_app; simpl; auto. }
+  destruct H as [H|H].
+  - rewrite (chain_first _ _ _ _ _ C) in H. injection H as <-. apply Sub.
+    destruct (hd_in_or j (q ++ p)) as [[-> _]|]; auto.
+  - rewrite (chain_last _ _ _ _ _ C) in H. injection H as <-. apply Sub.
+    destruct (last_in_or j (q ++ p)) as [[-> _]|]; auto.
+Qed.
+
+Lemma link_heap (h : rheap) r s n p :
+  r < length h -> s < length h -> n < length h -> p < length h ->
+  exists h',
+    (do h1 <- hupd h (Some r) (set_rnext (Some s));
+     do h2 <- hupd h1 (Some s) (set_rprev (Some r));
+     do h3 <- hupd h2 (Some n) (set_rprev (Some p));
+     do h4 <- hupd h3 (Some p) (set_rnext (Some n));
+     Ok (Some n, h4)) = Ok (Some n, h') /\
+    length h' = length h /\
+    (forall j, rnx h' j = upd (upd (rnx h) r (Some s)) p (Some n) j) /\
+    (forall j, rpv h' j = upd (upd (rpv h) s (Some r)) n (Some p) j) /\
+    (forall j, rvl h' j = rvl h j).
+Proof.
+  intros Hr Hs Hn Hp.
+  rewrite rhupd_eq by auto. cbn [bind]. rewrite rhupd_eq by rsize_tac. cbn [bind].
+  rewrite rhupd_eq by rsize_tac. cbn [bind]. rewrite rhupd_eq by rsize_tac. cbn [bind].
+  eexists. split; [reflexivity|]. unfold upd.
+  split; [now autorewrite with rheap|]. repeat split; intro j; now autorewrite with rheap.
+Qed.
+
+Lemma cons_ne_app (c : list nat) rest : cons_ne c rest = cons_ne c [] ++ rest.
+Proof. destruct c; reflexivity. Qed.
+
+Lemma concat_cons_ne (c : list nat) : concat (cons_ne c []) = c.
+Proof. destruct c; simpl; [reflexivity|]. rewrite app_nil_r. reflexivity. Qed.
+
+Lemma hd_tl_eq (d : nat) l : l <> [] -> l = hd d l :: tl l.
+Proof. destruct l; [congruence|reflexivity]. Qed.
+
+(* r.next = s; s.prev = r; n.prev = p; p.next = n on a represented heap *)
+Lemma link_core h a r s n p :
+  RRep h a -> In r (concat (ra_cycles a)) -> In s (concat (ra_cycles a)) ->
+  rnx h r = Some n -> rpv h s = Some p ->
+  exists h',
+    (do h1 <- hupd h (Some r) (set_rnext (Some s));
+     do h2 <- hupd h1 (Some s) (set_rprev (Some r));
+     do h3 <- hupd h2 (Some n) (set_rprev (Some p));
+     do h4 <- hupd h3 (Some p) (set_rnext (Some n));
+     Ok (Some n, h4)) = Ok (Some n, h') /\
+    RRep h' (RA (a_link (ra_cycles a) r s) (ra_vals a)) /\ length h' = length h.
+Proof.
+  intros R Ir Is En Ep.
+  assert (Hr : r < length h) by (apply (RR_alloc _ _ R); auto).
+  assert (Hs : s < length h) by (apply (RR_alloc _ _ R); auto).
+  assert (Hn : n < length h) by (eapply RRep_ptr_lt; eauto).
+  assert (Hp : p < length h) by (eapply RRep_ptr_lt; eauto).
+  destruct (link_heap h r s n p Hr Hs Hn Hp) as (h' & E & L & Nx & Pv & Vl).
+  exists h'. split; [exact E|]. split; [|exact L].
+  assert (HV := RRep_vals_same _ _ _ R L Vl).
+  destruct (RRep_member _ _ _ R Ir) as (pre & post & p0 & q0 & Ecs & Ex & C & ND).
+  set (A := q0 ++ p0) in *.
+  assert (EnA : n = hd r A) by (rewrite (chain_first _ _ _ _ _ C) in En; congruence).
+  assert (Pcs : Permutation (concat (ra_cycles a)) ((r :: A) ++ concat (pre ++ post))).
+  { rewrite Ecs. apply perm_extract. }
+  assert (Hrest : forall d, In d (pre ++ post) -> In d (ra_cycles a)).
+  { intros d Id. rewrite Ecs. apply in_app_iff in Id as [Id|Id]; apply in_or_app; simpl; auto. }
+  unfold a_link, ext. rewrite Ex. cbn [tl]. fold A.
+  destruct (Nat.eqb_spec s r) as [Esr|Nsr].
+  - (* Link(r, r): r alone; the rest of its ring stays a ring *)
+    assert (EpA : p = last A r) by (subst s; rewrite (chain_last _ _ _ _ _ C) in Ep; congruence).
+    destruct (link_self (rnx h) (rpv h) r s n p A C ND EnA EpA Esr) as [C1 C2].
+    rewrite cons_ne_app. change ([r] :: cons_ne A [] ++ pre ++ post) with (([r] :: cons_ne A []) ++ pre ++ post).
+    apply (RRep_replace h a h' (ra_vals a) (r :: A) (pre ++ post) [] ([r] :: cons_ne A [])); auto; try lia.
+    + constructor.
+    + intros j [].
+    + cbn [concat app]. rewrite concat_cons_ne. reflexivity.
+    + intros c [<-|Ic].
+      * exists r, []. split; auto. eapply chain_ext; [| |exact C1]; auto.
+      * destruct A as [|a0 A']; [destruct Ic|]. destruct Ic as [<-|[]].
+        exists n, A'. simpl in EnA. subst a0. split; auto.
+        eapply chain_ext; [| |exact (C2 ltac:(discriminate))]; auto.
+    + intros j Nj. simpl in Nj. rewrite Nx, Pv. unfold upd.
+      assert (j <> r) by (intros ->; tauto).
+      assert (j <> p). { rewrite EpA. intros ->. destruct (last_in_or r A) as [[E0 _]|I0]; [congruence|tauto]. }
+      assert (j <> n). { rewrite EnA. intros ->. destruct (hd_in_or r A) as [[E0 _]|I0]; [congruence|tauto]. }
+      assert (j <> s) by congruence.
+      repeat match goal with |- context[Nat.eqb j ?y] => rewrite (proj2 (Nat.eqb_neq j y)) by assumption end. auto.
+  - destruct (split_at s A) as [[A1 B]|] eqn:Es.
+    + (* same ring: A1 is cut out *)
+      destruct (split_at_Some _ _ _ _ Es) as [EA NsA1].
+      assert (EpA : p = last A1 r).
+      { rewrite EA in C. destruct (chain_at _ _ _ _ _ _ _ C) as [_ Q]. congruence. }
+      assert (EnA1 : n = hd s A1) by (rewrite EnA, EA; destruct A1; reflexivity).
+      rewrite EA in C, ND.
+      destruct (link_same (rnx h) (rpv h) r s n p A1 B C ND EnA1 EpA) as [C1 C2].
+      rewrite cons_ne_app.
+      change ((r :: s :: B) :: cons_ne A1 [] ++ pre ++ post) with (((r :: s :: B) :: cons_ne A1 []) ++ pre ++ post).
+      apply (RRep_replace h a h' (ra_vals a) (r :: A) (pre ++ post) [] ((r :: s :: B) :: cons_ne A1 [])); auto; try lia.
+      * constructor.
+      * intros j [].
+      * cbn [concat app]. rewrite concat_cons_ne, EA.
+        apply perm_skip. change (s :: B) with ([s] ++ B). rewrite (app_assoc A1), <- app_assoc.
+        simpl. apply Permutation_sym. apply Permutation_trans with ((s :: B) ++ A1); [apply Permutation_app_comm|reflexivity].
+      * intros c [<-|Ic].
+        -- exists r, (s :: B). split; auto. eapply chain_ext; [| |exact C1]; auto.
+        -- destruct A1 as [|a0 A1']; [destruct Ic|]. destruct Ic as [<-|[]].
+           exists n, A1'. simpl in EnA1. subst a0. split; auto.
+           eapply chain_ext; [| |exact (C2 ltac:(discriminate))]; auto.
+      * intros j Nj. simpl in Nj. rewrite EA in Nj. rewrite Nx, Pv. unfold upd.
+        rewrite in_app_iff in Nj. simpl in Nj.
+        assert (j <> r) by (intros ->; tauto). assert (j <> s) by (intros ->; tauto).
+        assert (j <> p). { rewrite EpA. intros ->. destruct (last_in_or r A1) as [[E0 _]|I0]; [congruence|tauto]. }
+        assert (j <> n). { rewrite EnA1. intros ->. destruct (hd_in_or s A1) as [[E0 _]|I0]; [congruence|tauto]. }
+        repeat match goal with |- context[Nat.eqb j ?y] => rewrite (proj2 (Nat.eqb_neq j y)) by assumption end. auto.
+    + (* different rings: s's ring is spliced in after r *)
+      pose proof (split_at_None _ _ Es) as NsA.
+      destruct (touch_init _ _ _ R Ir) as (_ & _ & R1).
+      unfold a_touch, ext in R1. rewrite Ex in R1. fold A in R1.
+      assert (Is1 : In s (concat (ra_cycles (RA ((r :: A) :: pre ++ post) (ra_vals a))))).
+      { cbn [ra_cycles]. eapply Permutation_in; [exact Pcs|]. exact Is. }
+      destruct (RRep_member _ _ _ R1 Is1) as (pre2 & post2 & p2 & q2 & Ecs2 & Ex2 & C2 & ND2).
+      cbn [ra_cycles] in Ecs2, Ex2.
+      (* the extraction of s skips r's cycle *)
+      cbn [extract] in Ex2.
+      assert (Rn : rot_to s (r :: A) = None).
+      { unfold rot_to. cbn [split_at]. apply Nat.eqb_neq in Nsr. rewrite Nat.eqb_sym, Nsr, Es. reflexivity. }
+      rewrite Rn in Ex2.
+      destruct (extract s (pre ++ post)) as [[c2 rest2]|] eqn:Ex3; [|discriminate].
+      injection Ex2 as Ec2 Er2. set (B := q2 ++ p2) in *.
+      subst c2.
+      assert (EpB : p = last B s) by (rewrite (chain_last _ _ _ _ _ C2) in Ep; congruence).
+      destruct (extract_Some _ _ _ _ Ex3) as (pre3 & c3 & post3 & p3 & q3 & Ecs3 & -> & -> & Ec3).
+      injection Ec3 as Ec3.
+      assert (Pcs3 : Permutation (concat (ra_cycles a)) (((r :: A) ++ (s :: B)) ++ concat (pre3 ++ post3))).
+      { eapply Permutation_trans; [exact Pcs|]. rewrite <- app_assoc. apply Permutation_app_head.
+        rewrite Ecs3. rewrite Ec3. apply perm_extract. }
+      assert (NDab : NoDup ((r :: A) ++ (s :: B))).
+      { pose proof (RR_nodup _ _ R) as NDc. apply (Permutation_NoDup Pcs3) in NDc.
+        apply NoDup_app_iff in NDc. tauto. }
+      pose proof (link_diff (rnx h) (rpv h) r s n p A B C C2 NDab EnA EpB) as C'.
+      change ((r :: (s :: B) ++ A) :: pre3 ++ post3) with ([r :: (s :: B) ++ A] ++ pre3 ++ post3).
+      apply (RRep_replace h a h' (ra_vals a) ((r :: A) ++ (s :: B)) (pre3 ++ post3) [] [r :: (s :: B) ++ A]); auto; try lia.
+      * intros d Id. apply Hrest. rewrite Ecs3. apply in_app_iff in Id as [Id|Id]; apply in_or_app; simpl; auto.
+      * constructor.
+      * intros j [].
+      * cbn [concat app]. rewrite app_nil_r. apply perm_skip.
+        change (s :: B ++ A) with ((s :: B) ++ A). apply Permutation_app_comm.
+      * intros c [<-|[]]. exists r, (s :: B ++ A). split; auto. eapply chain_ext; [| |exact C']; auto.
+      * intros j Nj. cbn [app] in Nj. rewrite Nx, Pv. unfold upd.
+        assert (Nj' : j <> r /\ ~ In j A /\ j <> s /\ ~ In j B).
+        { simpl in Nj. rewrite in_app_iff in Nj. simpl in Nj. repeat split; try (intros ->); tauto. }
+        destruct Nj' as (J1 & J2 & J3 & J4).
+        assert (j <> p). { rewrite EpB. intros ->. destruct (last_in_or s B) as [[E0 _]|I0]; [congruence|tauto]. }
+        assert (j <> n). { rewrite EnA. intros ->. destruct (hd_in_or r A) as [[E0 _]|I0]; [congruence|tauto]. }
+        repeat match goal with |- context[Nat.eqb j ?y] => rewrite (proj2 (Nat.eqb_neq j y)) by assumption end. auto.
+Qed.
